@@ -56,7 +56,12 @@ func (f *If) Call(s *slip.Scope, args slip.List, depth int) (result slip.Object)
 	result = nil
 	d2 := depth + 1
 	pos := 0
-	test := slip.EvalArg(s, args, pos, d2) != nil
+	tv := slip.EvalArg(s, args, pos, d2)
+	switch tv.(type) {
+	case *slip.ReturnResult, *GoTo:
+		return tv
+	}
+	test := tv != nil
 	pos++
 	if test {
 		result = slip.EvalArg(s, args, pos, d2)
